@@ -31,7 +31,7 @@ def spans(term, leafopts):
         if k == "S":
             s = "<" + v + ">"
         elif k == "D":
-            s = v
+            s = "<![CDATA[" + v + "]]>" if cd else v
         else:
             s = "" if (leaf is not None and omit) else "</" + v + ">"
         if s:
@@ -125,8 +125,15 @@ def small_work(chunk):
     t = Tally()
     for term, full in chunk:
         toks, nleaves = ref_sgml.tokens(term)
-        for rendering in ("xml", "sgml"):
-            lo = {} if rendering == "xml" else {leaf: (True, False) for leaf in range(nleaves) if ref_sgml.can_omit(toks, leaf)}
+        data = {leaf: v for k, v, leaf in toks if k == "D"}
+        for rendering in ("xml", "sgml", "cdata"):
+            if rendering == "cdata":
+                # every data element that allows it CDATA-wrapped: markup between two sections must still be checked
+                lo = {leaf: (False, True) for leaf in data if ref_sgml.can_cdata(data[leaf])}
+                if len(lo) < 2:
+                    continue
+            else:
+                lo = {} if rendering == "xml" else {leaf: (True, False) for leaf in range(nleaves) if ref_sgml.can_omit(toks, leaf)}
             text, sp = spans(term, lo)
             if ref_sgml.build(text) != term:
                 raise HarnessError(f"reference does not read back {text!r}")
@@ -157,6 +164,62 @@ def doc_work(chunk):
     return t
 
 
+def path_work(chunk):
+    """files given to OFXTree.parse() by path: a well-formed file is parsed, then replaced - same path, same length, same
+    modification time - by a faulty one; the faulty one must be refused (by a fresh OFXTree and by the same one)"""
+    import os
+    import shutil
+    import tempfile
+
+    from ofxtools.Parser import OFXTree
+
+    t = Tally()
+    d = tempfile.mkdtemp(prefix="vf-c08-")
+    try:
+        for clsname, which in chunk:
+            sdoc = wire.doc({"MIN": U.MIN, "MAXS": U.MAXS}[which](U.cls_by_name(clsname)))
+            for rendering in ("xml", "sgml"):
+                toks, nleaves = ref_sgml.tokens(sdoc)
+                lo = {} if rendering == "xml" else {leaf: (True, False) for leaf in range(nleaves) if ref_sgml.can_omit(toks, leaf)}
+                text, sp = spans(sdoc, lo)
+                head = H.render_v1(H.v1_fields(102, encoding="UTF-8", charset="NONE")) if rendering == "sgml" else H.render_v2(H.v2_fields(203))
+                path = os.path.join(d, f"{clsname}-{which}-{rendering}.ofx")
+                for kind, faulty in faults(text, sp, False):
+                    if len(faulty.encode("utf_8")) != len(text.encode("utf_8")):
+                        continue
+                    try:
+                        ref_sgml.build(faulty)
+                        continue
+                    except ref_sgml.RefSyntaxError:
+                        pass
+                    for reuse in (False, True):
+                        t.count("evaluations")
+                        t.count("faulty-files")
+                        case = {"text": faulty, "rendering": rendering, "kind": kind, "route": "path", "valid": text}
+                        with open(path, "wb") as f:
+                            f.write((head + text).encode("utf_8"))
+                        st = os.stat(path)
+                        tree = OFXTree()
+                        try:
+                            tree.parse(path)
+                        except Exception as e:
+                            t.fail(f"C08|{rendering}|valid-file|parse-by-path|rejected", case, repr(e)[:200])
+                            break
+                        with open(path, "wb") as f:
+                            f.write((head + faulty).encode("utf_8"))
+                        os.utime(path, ns=(st.st_atime_ns, st.st_mtime_ns))
+                        try:
+                            r = (tree if reuse else OFXTree()).parse(path)
+                        except Exception:
+                            t.outcome("rejected-parse-by-path")
+                            continue
+                        t.fail(f"C08|{rendering}|{kind}|parse-by-path-after-the-valid-file|accepted", case, f"{faulty[:200]!r} at the path that held the well-formed file before")
+            t.count("bodies")
+    finally:
+        shutil.rmtree(d, ignore_errors=True)
+    return t
+
+
 def run(ctx):
     ref_sgml.selfcheck()
     if ctx.quick:
@@ -173,6 +236,7 @@ def run(ctx):
         if ctx.thorough:
             docs.append((r, "MAXD", False))
     tally.merge(ctx.pmap(doc_work, docs, chunk=1))
+    tally.merge(ctx.pmap(path_work, [(r, "MIN") for r in ROOTS] + [(r, "MAXS") for r in ROOTS[: 4 if ctx.quick else len(ROOTS)]], chunk=1))
     if tally.counts.get("faulty-texts", 0) < 100000:
         vacuous(tally, f"vacuous: {tally.counts}")
     if not tally.fails:
@@ -185,10 +249,11 @@ def run(ctx):
         "distinct_nontrivial": tally.counts.get("faulty-texts", 0),
         "rule": ("all trees <=3 nodes (every byte truncation) + all 4-node trees with default data (token-level truncations)" if ctx.quick else
                  "all trees <=4 nodes with <=1 non-default leaf (every byte truncation) + the remaining 4-node trees (token-level truncations)") +
-        f" over the C02 alphabets, in XML and SGML rendering, + MIN/MAXS{'/MAXD' if ctx.thorough else ''} documents of {len(ROOTS)} realistic roots; x every single fault: "
+        f" over the C02 alphabets, in XML and SGML rendering and (two or more data elements) with every data element CDATA-wrapped, + MIN/MAXS{'/MAXD' if ctx.thorough else ''} documents of {len(ROOTS)} realistic roots; x every single fault: "
         "truncation, each aggregate end tag deleted / duplicated / misspelled (2 ways) / replaced by every other element's name, adjacent end tags transposed, stray end "
         "tag (2) or stray text (2) after every end tag, second top-level element (3); faulty texts the strict reference reader still accepts are skipped; each remaining text "
-        "goes through TreeBuilder.feed+close and OFXTree.parse; distinct_nontrivial = malformed texts",
+        "goes through TreeBuilder.feed+close and OFXTree.parse; + files parsed by path: every same-length fault of the documents written over the well-formed file "
+        "(same path, size and modification time) after that one was parsed; distinct_nontrivial = malformed texts",
         "bodies": tally.counts.get("bodies", 0),
         "skipped_still_well_formed": tally.counts.get("still-well-formed", 0),
         "exhaustive": True,
@@ -203,6 +268,28 @@ def _size(term):
 
 def replay(ctx, case):
     t = Tally()
+    if case.get("route") == "path":
+        import os
+        import tempfile
+
+        from ofxtools.Parser import OFXTree
+
+        sg = case["rendering"] == "sgml"
+        head = H.render_v1(H.v1_fields(102, encoding="UTF-8", charset="NONE")) if sg else H.render_v2(H.v2_fields(203))
+        with tempfile.TemporaryDirectory(prefix="vf-c08-") as d:
+            path = os.path.join(d, "f.ofx")
+            open(path, "wb").write((head + case["valid"]).encode("utf_8"))
+            st = os.stat(path)
+            OFXTree().parse(path)
+            open(path, "wb").write((head + case["text"]).encode("utf_8"))
+            os.utime(path, ns=(st.st_atime_ns, st.st_mtime_ns))
+            try:
+                OFXTree().parse(path)
+            except Exception as e:
+                print("  refused:", repr(e)[:200])
+                return False
+            print("  accepted the faulty file at the path that held the well-formed one")
+            return True
     check_text(t, case["rendering"], case.get("kind", "replay"), case["text"], lambda f: case)
     for sig, (n, c, d) in sorted(t.fails.items()):
         print(" ", sig, "|", d)
